@@ -23,7 +23,7 @@ def reach_bad(sp, pat):
         return len(k) >= len(pre) and all(a == "?" or a == b for a, b in zip(pre, k[:len(pre)]))
     return any(prefix_match(k) for k in sp.m)
 
-def session_oracle(ops, lines):
+def session_oracle(ops, lines, known=None):
     """at every disconnect: state afterwards = lastwill . bury . drop_sys (state before); other clients' subscriptions
     get exactly the delete/set events those steps imply; the client's own subscriptions, ls-subscriptions, spub keys,
     locks are gone"""
@@ -41,6 +41,8 @@ def session_oracle(ops, lines):
         elif kind == "del" and ok: sp.delete(op[2])
         elif kind == "pdel" and ok: sp.pdelete(op[2])
         elif kind in ("sub", "psub") and ok:
+            for s in subs.values():
+                if s[5] and (s[0], s[1]) == (op[1], op[2]): s.append("orphan")        # F24: its entry in Worterbuch.subscriptions is overwritten
             subs[int(r.split(" ")[1])] = [op[1], op[2], kind, segs(op[3]), op[4], True]
         elif kind == "unsub" and ok:
             for s in subs.values():
@@ -96,6 +98,10 @@ def session_oracle(ops, lines):
             # events put into the disconnecting client's own queues while its session is being torn down can
             # reach nobody (the connection is gone); they are not constrained
             got = [e for e in got if subs[e[0]][0] != c]
+            f24 = [e for e in got if not subs[e[0]][5] and "orphan" in subs[e[0]]]
+            if f24:
+                if known: known("F24", "a subscription survives its unsubscribe / the end of its session when a second subscribe was accepted under the same transaction id while it was active (Worterbuch.subscriptions keeps one pattern per id, worterbuch.rs:499,574)")
+                got = [e for e in got if e not in f24]
             a = sorted(got, key=lambda e: (e[0], ev_key(e)))
             b = sorted(exp, key=lambda e: (e[0], ev_key(e)))
             if a != b:
@@ -113,6 +119,29 @@ def cleanup_probes(c):
     """requests that must all fail after client c is gone: its subscription ids, ls ids, spub streams"""
     return [("unsub", c, 1), ("unsubls", c, 2), ("spub", c, 7, 0)]
 
+def survivor_oracle(ops, lines, known=None):
+    """no event reaches a subscription of a client after that client's session ended"""
+    subs = {}    # inst -> [client, tid, ended, orphan]
+    for i, (op, l) in enumerate(zip(ops, lines)):
+        r = res_of(l)
+        if op[0] in ("sub", "psub") and r.startswith("sub "):
+            for s in subs.values():
+                if not s[2] and (s[0], s[1]) == (op[1], op[2]): s[3] = True
+            subs[int(r.split(" ")[1])] = [op[1], op[2], False, False]
+        elif op[0] == "unsub" and not r.startswith("err"):
+            for s in subs.values():
+                if (s[0], s[1]) == (op[1], op[2]) and not s[3]: s[2] = True
+        dead = [e for e in events_of(l) if e[0] in subs and subs[e[0]][2] and op[0] != "disc"]
+        if dead:
+            if all(subs[e[0]][3] for e in dead):
+                if known: known("F24", "a subscription survives its unsubscribe / the end of its session when a second subscribe was accepted under the same transaction id while it was active (Worterbuch.subscriptions keeps one pattern per id, worterbuch.rs:499,574)")
+            else:
+                return (i, f"event {dead[0]} delivered to a subscription of client {subs[dead[0][0]][0]} after its session ended")
+        if op[0] == "disc":
+            for s in subs.values():
+                if s[0] == op[1]: s[2] = True
+    return None
+
 def probe_oracle(ops, lines):
     """after disc c the probes must answer NotSubscribed / NotSubscribed / NoPubStream"""
     gone = set()
@@ -129,6 +158,7 @@ def probe_oracle(ops, lines):
     return None
 
 CORPUS = [
+    ("F24-dup-tid", [("conn", 1), ("conn", 2), ("dump",), ("sub", 1, 6, "x", False, True), ("sub", 1, 6, "y", False, True), ("set", 2, "x", 1), ("disc", 1), ("dump",), ("set", 2, "y", 2), ("set", 2, "x", 2)]),
     ("basic", [("conn", 1), ("conn", 2), ("dump",), ("set", 1, gg_key(1), ["g/#", "h/?"]), ("set", 1, lw_key(1), [{"key": "w/1", "value": "bye"}, ["w/2", 2]]),
                ("set", 2, "g/1", 1), ("set", 2, "g/2/3", 1), ("set", 2, "h/x", 1), ("set", 2, "h/x/y", 1), ("cset", 2, "w/1", 0, 0), ("psub", 2, 1, "#", False, True), ("sub", 2, 2, "w/1", True, True),
                ("sub", 1, 1, "g/1", False, True), ("subls", 1, 2, "g"), ("spubinit", 1, 7, "s"), ("lock", 1, "k"), ("acq", 2, "k"),
@@ -168,6 +198,7 @@ def random_case(g, n):
         elif x < 0.53: ops.append(("del", c, g.key()))
         elif x < 0.60:
             t = tids.get(c, 0) + 1; tids[c] = t
+            if r.random() < 0.1 and t > 1: t -= 1                      # a transaction id that may still be subscribed (F24)
             ops.append(("psub", c, t, g.pattern(), r.random() < 0.3, True))
         elif x < 0.64:
             t = tids.get(c, 0) + 1; tids[c] = t
@@ -211,7 +242,7 @@ def run(v, tier, seed):
     nontrivial, samples, ndisc = set(), [], 0
     for name, ops in cases:
         lines = A.get(name, [])
-        bad = session_oracle(ops, lines) or probe_oracle(ops, lines)
+        bad = session_oracle(ops, lines, known=v.known) or probe_oracle(ops, lines) or survivor_oracle(ops, lines, known=v.known)
         d = sum(1 for o, l in zip(ops, lines) if o[0] == "disc" and events_of(l))
         ndisc += sum(1 for o in ops if o[0] == "disc")
         if d: nontrivial.add(tuple(map(str, ops)))
@@ -222,7 +253,7 @@ def run(v, tier, seed):
                 write_cases(wc, [("s", [render(o) for o in cand])])
                 i2, _ = run_engine("core", "core_driver", wc, work, tag="-shrink")
                 l2 = read_obs(i2)["s"]
-                return (session_oracle(cand, l2) or probe_oracle(cand, l2)) is not None
+                return (session_oracle(cand, l2) or probe_oracle(cand, l2) or survivor_oracle(cand, l2)) is not None
             small = shrink(ops[:step + 2], fails)
             v.violation({"what": msg, "case": name, "ops": [render(o) for o in small], "ops_readable": [str(o) for o in small]})
             if len(v.violations) >= 3: break
